@@ -124,3 +124,72 @@ func VHTimedHistory() {
 	}
 	vCover("timed history done")
 }
+
+type c19big struct {
+	a, b, c, d [4]int64
+	s          string
+}
+
+// c19typed: the non-blocking bulk receivers and one timed round trip for an element type E.
+func c19typed[E comparable](mk func(i int) E, what string) {
+	c := 1 + vChoose(what+".cap", 3)
+	f := vChoose(what+".fill", c+1)
+	ch := make(chan E, c)
+	for i := 0; i < f; i++ {
+		ch <- mk(i + 1)
+	}
+	limit := vChoose(what+".limit", 5) - 1
+	want := limit
+	if want < 0 {
+		want = 0
+	}
+	if want > f {
+		want = f
+	}
+	if vChoose(what+".full", 2) == 0 {
+		got := RecvQueued(ch, limit)
+		vAssert(len(got) == want, what+": RecvQueued returns exactly the values already queued, up to the limit")
+		for i := range got {
+			vAssert(got[i] == mk(i+1), what+": RecvQueued returns the values in FIFO order")
+		}
+	} else {
+		buf := make([]E, want)
+		n := RecvQueuedFull(ch, buf)
+		vAssert(n == want, what+": RecvQueuedFull fills the buffer with the values already queued")
+		for i := 0; i < n; i++ {
+			vAssert(buf[i] == mk(i+1), what+": RecvQueuedFull returns the values in FIFO order")
+		}
+	}
+	vAssert(len(ch) == f-want, what+": the rest stays in the channel")
+	if len(ch) < c {
+		vAssert(SendTimeout(ch, mk(9), 0), what+": an unlimited send with room succeeds")
+		for len(ch) > 1 {
+			<-ch
+		}
+		v, ok := RecvTimeout(ch, -1)
+		vAssert(ok && v == mk(9), what+": the value sent last comes out last")
+	}
+}
+
+// VHElemTypes: the helpers instantiated for element types of size zero (struct{}, [0]int), one
+// byte, a string, a pointer and a 136-byte struct - a generic helper may size or
+// preallocate by the element type.
+func VHElemTypes() {
+	x := vInt("x")
+	switch vChoose("type", 6) {
+	case 0:
+		c19typed(func(i int) struct{} { return struct{}{} }, "struct{}")
+	case 1:
+		c19typed(func(i int) [0]int { return [0]int{} }, "[0]int")
+	case 2:
+		c19typed(func(i int) uint8 { return uint8(i) }, "uint8")
+	case 3:
+		c19typed(func(i int) string { return "v" + string(rune('0'+i)) }, "string")
+	case 4:
+		cells := make([]int, 12)
+		c19typed(func(i int) *int { return &cells[i] }, "*int")
+	case 5:
+		c19typed(func(i int) c19big { return c19big{a: [4]int64{int64(i), int64(x)}, s: "b"} }, "big struct")
+	}
+	vCover("chan elem types done")
+}
